@@ -19,7 +19,7 @@ MANIFEST = dict(
     category='model_checking', design_ref='DESIGN.md §3 C08',
     engine='E1-history',
     technique='exhaustive enumeration of insertion-order histories (<=4 of 6 lexicons, optional remove/re-add) x specifier atoms x ordered atom pairs x lang on the real database vs the documented resolution',
-    text='For every ordered selection of up to 4 of the lexicons a:1, a:1.0, a:2+x (en), ab:1 (cmn-Hans) and b:1, b:2-rc (es; some declaring dependencies that are not installed) - 517 installation histories, each also followed by one remove + re-add so that recency follows the last addition - every specifier atom (*, bare id, id:version, id:*, *:version, star globs, unknown id/version), every ordered pair of atoms and every lang value (None, en, es, cmn-Hans, xx) is resolved by Wordnet(...).lexicons(); the result set must equal the documented resolution (bare id = the most recently added lexicon of that id, lists = union), Wordnet must raise wn.Error exactly when nothing at all matches (and wn.lexicons() return []), no unmatched lexicon may ever be selected, and wn.remove(spec) on a snapshot must remove exactly the resolved lexicons.',
+    text='For every ordered selection of up to 4 of the lexicons a:1, a:1.0, a:2+x (en), ab:1 (cmn-Hans) and b:1, b:2-rc (es; some declaring dependencies that are not installed) - 517 installation histories, each also followed by one remove + re-add so that recency follows the last addition - every specifier atom (*, bare id, id:version, id:*, *:version, star globs, question-mark and bracket globs, unknown id/version), every ordered pair of atoms and every lang value (None, en, es, cmn-Hans, xx) is resolved by Wordnet(...).lexicons(); the result set must equal the documented resolution (bare id = the most recently added lexicon of that id, lists = union), Wordnet must raise wn.Error exactly when nothing at all matches (and wn.lexicons() return []), no unmatched lexicon may ever be selected, lists must not repeat a lexicon, and wn.remove(spec) on a snapshot - for every atom and every list "<atom> <bare id>" - must remove exactly the lexicons resolved before the call.',
     note='Only * wildcards (?, [...] are undocumented); star globs are written with an explicit colon or as an id prefix (where both readings of the documentation agree); all versions of one id share a language so that "most recent" and the lang filter commute.',
 )
 
@@ -29,8 +29,11 @@ REQUIRES = {4: [{'id': 'zz', 'version': '1'}], 2: [{'id': 'b', 'version': '1'}, 
 ATOMS = ['*', 'a', 'ab', 'b', 'zz', 'a:1', 'a:1.0', 'a:2+x', 'ab:1', 'b:1', 'b:2-rc', 'a:9',
          'a:*', 'ab:*', 'b:*', 'zz:*', '*:1', '*:1.0', '*:2+x', '*:9', 'a*', 'b*', 'a*:1',
          '*:1*', '*:2*', 'a*:*', '*:*']
+# glob patterns other than the star: '?' (one character) and '[...]' (one of a set)
+QGLOBS = ['?:1', 'a:?', 'a?:1', '[ab]:1', 'a:[12]*', 'b:2-r?', 'a:1.?', '[ab]?:1']
+ATOMS += QGLOBS
 QUICK_ATOMS = ['*', 'a', 'ab', 'b', 'zz', 'a:1', 'a:2+x', 'b:2-rc', 'a:9', 'a:*', 'b:*',
-               '*:1', 'a*', '*:1*', '*:2*']
+               '*:1', 'a*', '*:1*', '*:2*', '?:1', 'a:?', '[ab]:1', 'a:[12]*']
 LANGS = [None, 'en', 'es', 'cmn-Hans', 'xx']
 
 
@@ -47,12 +50,28 @@ def build(i):
 
 
 def _glob(pat, s):
-    return re.fullmatch('.*'.join(re.escape(p) for p in pat.split('*')), s) is not None
+    """'*' any string, '?' any one character, '[...]' one character of the set"""
+    rx = ''
+    i = 0
+    while i < len(pat):
+        c = pat[i]
+        if c == '*':
+            rx += '.*'
+        elif c == '?':
+            rx += '.'
+        elif c == '[' and ']' in pat[i:]:
+            j = pat.index(']', i)
+            rx += '[' + re.escape(pat[i + 1:j]) + ']'
+            i = j
+        else:
+            rx += re.escape(c)
+        i += 1
+    return re.fullmatch(rx, s, flags=re.S) is not None
 
 
 def resolve_atom(atom, installed):
     """installed: list of lexicon indices in order of (last) addition. -> set of indices"""
-    if ':' not in atom and '*' not in atom:
+    if ':' not in atom and not any(c in atom for c in '*?['):
         cands = [i for i in installed if LEXS[i][0] == atom]
         return {cands[-1]} if cands else set()
     pat = atom if ':' in atom else atom + ':*'
@@ -113,6 +132,9 @@ def check(case):
                 except wn.Error:
                     got, err = [], True
                 one = dict(case, atoms=[a for a in atoms if a in sp.split()], only=[sp, lang])
+                if len(got) != len(set(got)):
+                    V.append(('resolve:list:duplicates', f'Wordnet(lexicon={sp!r}, lang={lang!r}).lexicons() lists a lexicon '
+                              f'twice: {[spec(i) for i in got]} (a list of specifiers selects the union)', None, one))
                 should_err = not exp and not (sp == '*' and lang is None)
                 kind = 'list' if ' ' in sp else ('bare' if (':' not in sp and '*' not in sp) else 'atom')
                 if set(got) != exp:
@@ -155,6 +177,25 @@ def check(case):
             if err != (not exp and sp != '*'):
                 V.append(('remove:error-rule', f'remove({sp!r}) raised={err} with matches {exp}', None,
                           dict(case, atoms=[sp])))
+        # remove('<atom> <bare id>'): the selection is made before anything is deleted
+        for a in atoms:
+            for b in ('a', 'ab', 'b'):
+                sp = f'{a} {b}'
+                exp = expected(sp, None, installed)
+                if not exp or not expected(a, None, installed):
+                    continue
+                env.restore(snap)
+                n += 1
+                try:
+                    env.remove(sp)
+                except wn.Error as exc:
+                    V.append(('remove:list:raises', f'remove({sp!r}) raised {exc!r}', None, dict(case, atoms=[a, b])))
+                    continue
+                left = {smap[x.specifier()] for x in wn.lexicons()}
+                if left != set(installed) - exp:
+                    V.append(('remove:list', f'remove({sp!r}) left {sorted(spec(i) for i in left)} expected '
+                              f'{sorted(spec(i) for i in set(installed) - exp)}; added in order {[spec(i) for i in installed]}',
+                              None, dict(case, atoms=[a, b])))
         return {'v': V, 'digs': set(digs), 'nt': len(set(digs)), 'n': n}
     finally:
         env.drop_db(dbdir)
